@@ -888,7 +888,9 @@ class Engine:
         if outcome[0] == 'normal':
             self.exits['normal'] += 1
             post_env['result'] = outcome[1]
-            if c.get('yield_acc'):
+            if c.get('yield_acc') == 'parities':
+                post_env['result'] = VParities(env['_ys'].term)
+            elif c.get('yield_acc'):
                 post_env['result'] = env['_ys']        # a generator under `yield_acc`: its value is the sequence it yields
             for exc, cond in c.get('raises', {}).items():
                 if cond is None:
@@ -1537,6 +1539,12 @@ class Engine:
                 return
             raise Unsupported('yield from')
         v = self.eval(y.value, env)
+        if c.get('yield_acc') == 'parities':
+            # a generator of (variables, bit) pairs: accumulated as the augmented lists X + [b]
+            if not (isinstance(v, VTuple) and len(v.items) == 2 and isinstance(v.items[0], VSeq) and v.items[0].sortname == 'ISeq'):
+                raise Unsupported('yield of a non-parity into the parity accumulator')
+            env['_ys'] = VSeq(specs.csnoc(env['_ys'].term, specs.isnoc(v.items[0].term, toz(v.items[1]))))
+            return
         if c.get('yield_acc'):
             if not (isinstance(v, VSeq) and v.term.sort() == specs.ISeq):
                 raise Unsupported('yield of a non-clause into the clause accumulator')
@@ -3062,6 +3070,7 @@ def sf_evrowt(eng, node, prefix, sep, suffix, clause):
 
 
 SPEC_FUNCS = {
+    'yxdom': _wrap(specs.yxdom),
     'evopaque': lambda eng, node: VSeq(specs.evopaque), 'opq': _wrap(specs.opq), 'wid': _wrap(specs.wid),
     'ysign': _wrap(specs.ysign), 'ydom': _wrap(specs.ydom),
     'psat': _wrap(specs.psat), 'valid1': _wrap(specs.valid1), 'cvalid': _wrap(specs.cvalid), 'cdistinct': _wrap(specs.cdistinct),
